@@ -74,3 +74,22 @@ def attrs(spec):
             'witness': {'inputs': {k: v[k] for k in ('static', 'dynamic', 'i18n')},
                         'detail': 'expected (name, expr) %r, observed %r' % (v['expected'], v['observed'])}})
     return out
+
+
+def split(spec):
+    t0 = time.time()
+    size = 6 if spec.get('tier') != 'thorough' else 8
+    r = _run('split.py', [REPO, size])
+    out = {'unit': 'B-SPLIT', 'obligations': [], 'wall': time.time() - t0,
+           'bounded': [{'id': 'B-SPLIT', 'function': 'tal.py::split_parts',
+                        'bound': r['bound'], 'cases': r['cases'], 'distinct': r['distinct']}]}
+    if r.get('violation'):
+        v = r['violation']
+        out['obligations'].append({
+            'name': 'B-SPLIT', 'expect': 'valid', 'status': 'failed', 'backend': 'bounded',
+            'time': 0.0, 'okind': 'bounded', 'tried': 'enumeration', 'confirmed': True,
+            'text': "a statement list is split at single ';' with ';;' as the escape for a literal "
+                    "semicolon and entity references kept whole (independent left-to-right specification)",
+            'witness': {'inputs': {'value': v['value']},
+                        'detail': 'expected parts %r, observed %r' % (v['expected'], v['observed'])}})
+    return out
